@@ -24,7 +24,7 @@ func (h *KeyMgmt) Unmarshal(v base.HeaderValue) error {
 		return fmt.Errorf("value provided multiple times (%v)", v)
 	}
 
-	kvs, err := keyValParse(v[0], ';')
+	keys, kvs, err := keyValParseOrdered(v[0], ';')
 	if err != nil {
 		return err
 	}
@@ -32,7 +32,9 @@ func (h *KeyMgmt) Unmarshal(v base.HeaderValue) error {
 	protocolProvided := false
 	uriProvided := false
 
-	for k, v := range kvs {
+	for _, k := range keys {
+		v := kvs[k]
+
 		switch k {
 		case "prot":
 			if v != "mikey" {
